@@ -633,7 +633,11 @@ func NowPeek() time.Duration { return time.Duration(s.now) }
 // AddTimer registers fire to run at now+d; returns a handle for StopTimer.
 func AddTimer(d time.Duration, fire func()) *timerEnt {
 	s.timerSeq++
-	te := &timerEnt{when: s.now + int64(d), seq: s.timerSeq, fire: fire, alive: true}
+	when := s.now + int64(d)
+	if d > 0 && when < s.now {
+		when = 1<<63 - 1 // saturate: "never" (a delay near the maximum duration must not wrap into the past)
+	}
+	te := &timerEnt{when: when, seq: s.timerSeq, fire: fire, alive: true}
 	s.timers = append(s.timers, te)
 	return te
 }
@@ -656,18 +660,32 @@ func StopTimer(te *timerEnt) bool {
 // TimerHandle is the opaque timer registration.
 type TimerHandle = *timerEnt
 
-func (s *sched) timerPending() bool { return len(s.timers) > 0 }
+// farFuture: timers due later than ~146 years of virtual time are "never": the clock does not travel there
+// (a delay of math.MaxInt64 is the usual spelling of "no timeout").
+const farFuture = int64(1) << 62
+
+func (s *sched) timerPending() bool {
+	for _, t := range s.timers {
+		if t.when < farFuture {
+			return true
+		}
+	}
+	return false
+}
 
 // SetClockForward installs a callback invoked with every clock advance.
 func SetClockForward(f func(delta time.Duration)) { s.clockFwd = f }
 
 func (s *sched) advanceClock() {
-	// earliest deadline
-	min := s.timers[0].when
+	// earliest deadline (never-timers excluded, see farFuture)
+	min := farFuture
 	for _, t := range s.timers {
 		if t.when < min {
 			min = t.when
 		}
+	}
+	if min >= farFuture {
+		return
 	}
 	if min > s.now {
 		d := min - s.now
